@@ -232,9 +232,11 @@ Proof.
   apply IH; auto.
 Qed.
 
+Definition conv_fits zs ws : Prop :=
+  zs <> [] -> ws <> [] -> forall k, (k < length zs + length ws - 1)%nat -> nconv zs ws k < B53.
+
 (* the product: every coefficient is accumulated from +0, hence never a negative zero *)
-Lemma gen_pmul p q zs ws : Forall2 R p zs -> Forall2 R q ws ->
-  (forall k, (k < length zs + length ws - 1)%nat -> nconv zs ws k < B53) ->
+Lemma gen_pmul p q zs ws : Forall2 R p zs -> Forall2 R q ws -> conv_fits zs ws ->
   Forall2 Rs (pmul p q) (pmul zs ws).
 Proof.
   intros Hp Hq Hb.
@@ -242,6 +244,7 @@ Proof.
   destruct p as [|x0 p']; [inversion Hp; subst; constructor|].
   destruct q as [|y0 q']; [inversion Hq; subst; destruct zs; constructor|].
   destruct zs as [|a0 zs']; [discriminate|]. destruct ws as [|b0 ws']; [discriminate|].
+  specialize (Hb ltac:(discriminate) ltac:(discriminate)).
   unfold pmul. rewrite <- Lp, <- Lq in *. apply F2_map_seq. intros k Hk.
   specialize (Hb k ltac:(lia)). unfold nconv, pmul_coeff in Hb. rewrite map_length, <- Lp in Hb.
   unfold pmul_coeff. rewrite <- Lp.
@@ -450,11 +453,10 @@ Qed.
 
 (* (p * q)' = p' * q + p * q' *)
 Lemma law_pderiv_pmul p q zs ws : Forall2 R p zs -> Forall2 R q ws -> p <> [] -> q <> [] ->
-  (forall k, (k < length zs + length ws - 1)%nat -> nconv zs ws k < B53) ->
+  conv_fits zs ws ->
   deriv_fits zs -> deriv_fits ws -> deriv_fits (pmul zs ws) ->
   (forall dzs dws, pderiv zs = Ok dzs -> pderiv ws = Ok dws ->
-     (forall k, (k < length dzs + length ws - 1)%nat -> nconv dzs ws k < B53) /\
-     (forall k, (k < length zs + length dws - 1)%nat -> nconv zs dws k < B53) /\
+     conv_fits dzs ws /\ conv_fits zs dws /\
      Forall (fun c => N c < B53) (padd (pmul dzs ws) (pmul zs dws))) ->
   exists dp dq, pderiv p = Ok dp /\ pderiv q = Ok dq /\
     pderiv (pmul p q) = Ok (padd (pmul dp q) (pmul p dq)).
@@ -482,7 +484,7 @@ Section Weak.
 Hypothesis R_Rs : forall x a, R x a -> Rs x a.
 
 Lemma law_eval_pmul p q zs ws x xz : Forall2 R p zs -> Forall2 R q ws -> R x xz -> p <> [] -> q <> [] ->
-  (forall k, (k < length zs + length ws - 1)%nat -> nconv zs ws k < B53) ->
+  conv_fits zs ws ->
   habs zs xz < B53 -> habs ws xz < B53 -> habs (pmul zs ws) xz < B53 -> habs zs xz * habs ws xz < B53 ->
   exists rp rq r rpz rqz, peval p x = Ok rp /\ peval q x = Ok rq /\ peval (pmul p q) x = Ok r /\
     peval zs xz = Ok rpz /\ peval ws xz = Ok rqz /\ R rp rpz /\ R rq rqz /\
